@@ -30,7 +30,9 @@ IMPORTS = ["Model.Traverse", "Model.Corr", "Model.Binding", "Model.Globals", "Mo
 SKIPPED = {"projection_good_split": 0, "projection_rule": 0, "projection_execute_core": 0, "projection_execute": 0}
 ACCEPTED = {"projection_good_split": [0, 0], "projection_rule": [0, 0], "projection_execute_core": [0, 0],
             "projection_execute": [0, 0]}          # [accepted, total]
-MAX_BODY = 11        # 2^n subsets per rule: larger bodies are skipped by the rule / execute families
+MAX_BODY = 11        # 2^n subsets per rule: larger bodies are skipped by the rule family ...
+MAX_BODY_EXECUTE = 9  # ... and by the execute families (every program is run up to four times)
+MAX_STATEMENTS = 400  # execute families: unpooling can blow a test program up to ~900 rules
 
 SYNTH_INPUT_NAMES = ["__aux_1", "__aux_2", "__aux_3", "__aux_4", "__aux_5", "p", "q", "in"]
 
@@ -123,7 +125,8 @@ def programs(inputs):
 def model_has_inline_arithmetic():
     vo = os.path.join(COQ, "Model", "Normalize.vo")
     src = os.path.join(COQ, "Model", "Normalize.v")
-    if not (os.path.exists(vo) and os.path.exists(src)):
+    mine = os.path.join(COQ, "Model", "ProjectionExecute.vo")
+    if not (os.path.exists(vo) and os.path.exists(src) and os.path.exists(mine)):
         return False
     txt = open(src, encoding="utf-8").read()
     return "Definition inline_arithmetic " in txt or "Fixpoint inline_arithmetic " in txt
@@ -191,7 +194,7 @@ class ProjectionGoodSplit:
                     yield Case(f"chk_split (good_split_mask {t} {bools(mask)}) {obs}",
                                {"fn": "good_split", "stmt": str(stm), "new": [str(x) for x in new],
                                 "rest": [str(x) for x in rest], "observed": js},
-                               nontrivial=js is not None)
+                               nontrivial=r is not None)
                 # the lists need not be in body order (nor a partition): shuffled / overlapping variants
                 if n >= 2:
                     for _ in range(3):
@@ -200,8 +203,11 @@ class ProjectionGoodSplit:
                         rest = [x for x, m in zip(body, mask) if not m]
                         rng.shuffle(new)
                         rng.shuffle(rest)
-                        if rng.random() < 0.3 and new:
+                        r_ = rng.random()
+                        if r_ < 0.3 and new:
                             rest.append(rng.choice(new))
+                        elif r_ < 0.6 and len(rest) > 1:
+                            rest.pop(rng.randrange(len(rest)))     # `rest` need not cover the complement
                         obs, js, r = result_text(lambda: pt.good_split(new, rest, stm), conv_split)  # pylint: disable=cell-var-from-loop
                         ACCEPTED[self.name][1] += 1
                         if theory:
@@ -211,7 +217,7 @@ class ProjectionGoodSplit:
                         yield Case(f"chk_split (good_split {ser.body(new)} {ser.body(rest)} {t}) {obs}",
                                    {"fn": "good_split", "variant": "shuffled", "stmt": str(stm),
                                     "new": [str(x) for x in new], "rest": [str(x) for x in rest], "observed": js},
-                                   nontrivial=js is not None)
+                                   nontrivial=r is not None)
 
 
 class ProjectionRule:
@@ -297,7 +303,7 @@ class ProjectionExecuteCore:
                         break
                     except Exception:  # pylint: disable=broad-except
                         break                      # preprocess itself failed on this input
-                    if max_body(prg) > MAX_BODY:
+                    if max_body(prg) > MAX_BODY_EXECUTE or len(prg) > MAX_STATEMENTS:
                         break
                     ins = [] if rnd == 0 else random_inputs(rng, prg)
                     if rnd == 1 and not ins:
@@ -312,7 +318,7 @@ class ProjectionExecuteCore:
                     yield Case(f"chk_stmts ({self.model} {t} {preds(ins)} {t}) {obs}",
                                {"fn": self.source.split(" ")[0], "kind": kind, "inputs": [str(p) for p in ins],
                                 "program": "\n".join(before), "source": text, "observed": js},
-                               nontrivial=js != before)
+                               nontrivial=r is not None and js != before)
 
 
 class ProjectionExecute(ProjectionExecuteCore):
@@ -320,6 +326,7 @@ class ProjectionExecute(ProjectionExecuteCore):
     source = "ngo.projection.ProjectionTranslator(prg, ins).execute(prg) (unpatched: inline_arithmetic included)"
     model = "execute"
     patched = False
+    imports = IMPORTS + ["Model.ProjectionExecute"]
 
 
 FAMILIES = [ProjectionSubsets(), ProjectionGoodSplit(), ProjectionRule(), ProjectionExecuteCore()]
